@@ -72,6 +72,13 @@ def main():
             clean()
             sh(f'git apply {d}/patch.diff')
             rc, o = sh(f'/verif/tools/baseline.sh {WT} {WT}/target', timeout=5400)
+            for _retry in range(2):
+                # binding::test_switch_binding binds fixed UDP ports: a baseline running side by side makes it fail - run again
+                fails = [l.split()[-1] for l in o.splitlines() if l.strip().startswith('FAIL')]
+                if fails and all('binding::test_switch_binding' in f for f in fails):
+                    rc, o = sh(f'/verif/tools/baseline.sh {WT} {WT}/target', timeout=5400)
+                else:
+                    break
             res['c_baseline'] = o.strip().splitlines()[0] if o.strip() else ''
             res['c_baseline_passes'] = 'pass=705' in o and 'missing=0' in o
             clean()
